@@ -167,6 +167,15 @@ class Desugar(ast.NodeTransformer):
                         tr = self._context_manager_try(s, method=True)
                         if tr is not None:
                             self.method_context_managers[s.name] = (tr, [a.arg for a in s.args.args[1:]])
+        # @contextmanager methods without a try: `PRE; yield; POST` - POST runs when the block completes, not when it raises
+        self.linear_context_managers: Dict[str, tuple] = {}
+        for c in module_tree.body:
+            if isinstance(c, ast.ClassDef):
+                for s in c.body:
+                    if isinstance(s, ast.FunctionDef) and not s.name.startswith("__") and seen_methods[s.name] == 1:
+                        lin = self._context_manager_linear(s)
+                        if lin is not None:
+                            self.linear_context_managers[s.name] = lin + ([a.arg for a in s.args.args[1:]],)
         self.carriers = {c.name: info for c in module_tree.body if isinstance(c, ast.ClassDef) for info in [self._carrier_info(c)] if info is not None}
         self.class_is_carrier = False
         self.class_tables: List[Dict[str, ast.expr]] = []
@@ -1177,7 +1186,68 @@ class Desugar(ast.NodeTransformer):
                     ast.fix_missing_locations(new)
                     self.count["contextmanager"] = self.count.get("contextmanager", 0) + 1
                     return self.visit(new)
+            if isinstance(ce, ast.Call) and isinstance(ce.func, ast.Attribute) and isinstance(ce.func.value, ast.Name) and ce.func.attr in self.linear_context_managers \
+                    and not ce.keywords and all(_simple(a) for a in ce.args):
+                pre, post, params = self.linear_context_managers[ce.func.attr]
+                recv = ce.func.value.id
+                jumps = any(isinstance(x, (ast.Return, ast.Break, ast.Continue)) for st in node.body for x in ast.walk(st))
+                stored = {x.id for st in node.body for x in ast.walk(st) if isinstance(x, ast.Name) and isinstance(x.ctx, (ast.Store, ast.Del))}
+                arg_names = {x.id for a in ce.args for x in ast.walk(a) if isinstance(x, ast.Name)} | {recv}
+                free = {x.id for st in pre + post for x in ast.walk(st) if isinstance(x, ast.Name)} - set(params) - {"self"}
+                binds = {x.id for st in pre + post for x in ast.walk(st) if isinstance(x, ast.Name) and isinstance(x.ctx, (ast.Store, ast.Del))}
+                clash = any(self._is_local(nm) for nm in free) or bool(binds)
+                try_form = len(post) == 1 and isinstance(post[0], ast.Try) and not post[0].body
+                if len(params) == len(ce.args) and (not jumps or try_form) and not clash and not (stored & arg_names):
+                    # `with R.m(a): BODY`  ->  PRE; BODY; POST   (an exception in BODY passes through the generator's yield uncaught: POST is skipped,
+                    # exactly as the statements after BODY are)
+                    mp = dict(zip(params, ce.args))
+                    mp["self"] = ast.Name(id=recv, ctx=ast.Load())
+                    if len(post) == 1 and isinstance(post[0], ast.Try) and not post[0].body:
+                        tr_ = _Subst(mp).visit(copy.deepcopy(post[0]))
+                        tr_.body = list(node.body)
+                        out = [_Subst(mp).visit(copy.deepcopy(st)) for st in pre] + [tr_]
+                    else:
+                        out = [_Subst(mp).visit(copy.deepcopy(st)) for st in pre] + list(node.body) + [_Subst(mp).visit(copy.deepcopy(st)) for st in post]
+                    for st in out:
+                        ast.copy_location(st, node) if not hasattr(st, "lineno") else None
+                        ast.fix_missing_locations(st)
+                    self.count["contextmanager"] = self.count.get("contextmanager", 0) + 1
+                    res = []
+                    for st in out:
+                        r_ = self.visit(st)
+                        res.extend(r_ if isinstance(r_, list) else [r_])
+                    return res
         return self.generic_visit(node)
+
+    @staticmethod
+    def _context_manager_linear(fn: ast.FunctionDef):
+        if len(fn.decorator_list) != 1 or fn.args.posonlyargs or fn.args.kwonlyargs or fn.args.vararg or fn.args.kwarg or fn.args.defaults:
+            return None
+        if not fn.args.args or fn.args.args[0].arg != "self":
+            return None
+        dn = fn.decorator_list[0]
+        if not (isinstance(dn, (ast.Name, ast.Attribute)) and (dn.id if isinstance(dn, ast.Name) else dn.attr) == "contextmanager"):
+            return None
+        body = [s_ for s_ in fn.body if not (isinstance(s_, ast.Expr) and isinstance(s_.value, ast.Constant))]
+        def is_yield(s_):
+            return isinstance(s_, ast.Expr) and isinstance(s_.value, ast.Yield) and s_.value.value is None
+
+        def is_try_yield(s_):
+            return isinstance(s_, ast.Try) and len(s_.body) == 1 and is_yield(s_.body[0]) and not s_.handlers and not s_.orelse and s_.finalbody
+        ys = [i for i, s_ in enumerate(body) if is_yield(s_) or is_try_yield(s_)]
+        if len(ys) != 1:
+            return None
+        pre, post = body[:ys[0]], body[ys[0] + 1:]
+        fin = list(body[ys[0]].finalbody) if isinstance(body[ys[0]], ast.Try) else None
+        for st in pre + post + (fin or []):
+            if any(isinstance(x, (ast.Yield, ast.YieldFrom, ast.Return, ast.FunctionDef, ast.Lambda, ast.Try, ast.With)) for x in ast.walk(st)):
+                return None
+        if fin is not None:
+            if post:
+                return None
+            # PRE; try: BODY finally: FIN
+            return pre, [ast.Try(body=[], handlers=[], orelse=[], finalbody=fin)]
+        return pre, post
 
     @staticmethod
     def _context_manager_try(fn: ast.FunctionDef, method: bool = False) -> Optional[ast.Try]:
